@@ -231,6 +231,7 @@ impl<'a> Renderer<'a> {
                 self.expr(e, P_TOP);
                 self.out.push(';');
             }
+            Stmt::Raw(t) => self.out.push_str(t),
             Stmt::Expr(e, bare) => {
                 if !*bare {
                     self.out.push_str("let _ = ");
